@@ -9,11 +9,12 @@ for fn in sorted(glob.glob(os.path.join(V, "checks.d", "*.json"))):
 for fn in sorted(glob.glob(os.path.join(V, "meta.d", "*.json"))):
     meta["checks"].update(json.load(open(fn)))
 props = [json.loads(l) for l in open(os.path.join(V, "properties.jsonl"))]
+enabled = set(open(os.path.join(V, "enabled.txt")).read().split())
 checks = []
 na = []
 for p in props:
     pid = p["id"]
-    if pid in cfg and pid in meta["checks"]:
+    if pid in cfg and pid in meta["checks"] and pid in enabled:
         m = meta["checks"][pid]
         checks.append({
             "property_id": pid,
